@@ -38,6 +38,7 @@ import (
 	"net"
 	"strings"
 	"sync"
+	"sync/atomic"
 	"time"
 
 	"github.com/hashicorp/nodeenrollment"
@@ -1153,6 +1154,8 @@ func sfRunDialRetries(c *engine.Ctx, replica int, srv *sfSrv) {
 	}
 }
 
+var sfCreatedSeq int64
+
 func sfRunCreated(c *engine.Ctx, sc sfCase, srv *sfSrv) {
 	r := c.R
 	var n *world.Node
@@ -1181,6 +1184,14 @@ func sfRunCreated(c *engine.Ctx, sc sfCase, srv *sfSrv) {
 	}
 	var req *types.FetchNodeCredentialsRequest
 	var cerr error
+	// two creations in three happen under a context that has a deadline (what a dialing application passes: a
+	// connect timeout of a minute or a few hours); how long the caller is willing to wait is not the request's lifetime
+	if k := atomic.AddInt64(&sfCreatedSeq, 1) % 3; k != 0 {
+		cctx, cancel := context.WithTimeout(n.Ctx, []time.Duration{0, 90 * time.Second, 3 * time.Hour}[k])
+		defer cancel()
+		n.Ctx = cctx
+		r.Count("created_under_a_context_with_deadline", 1)
+	}
 	t0 := time.Now().Round(0)
 	p, st := engine.Guard(func() { req, cerr = n.FetchRequest(opts...) })
 	t1 := time.Now().Round(0)
